@@ -3,7 +3,8 @@
 // has sent its first request or has nothing to ask) exactly one held request is
 // answered at a time and the controller waits until that goroutine has sent
 // its next request, delivered a block, or left the game (finished, or asleep
-// with nothing left to ask), before it answers the next one.
+// with nothing left to ask), before it answers the next one.  Requests to a
+// silent peer are set aside: the downloader's stream deadline ends them.
 package main
 
 import (
@@ -183,10 +184,23 @@ func (w *world) runCase(cs *caseSpec) (res result) {
 	// after an accepted answer the block travels through the queue to the fake
 	// blockchain; everything else that arrives meanwhile waits for it
 	awaiting := false
-	stuck := 0
-	var grace <-chan time.Time
 	var awaitSince time.Time
 	var pending []event
+	// Silent peers: a request whose behaviour is stall is never answered.  The downloader's stream
+	// deadline (10 s) ends it; what the goroutine does next (a new request, or nothing when it has
+	// nobody left to ask) is the consequence of that "reply", so the height enters Replies when the
+	// consequence is seen.  A request that is still pending after 13 s never ends.
+	stalled := map[int64]time.Time{} // phase one: height -> since when its request is ignored
+	var stalled2 time.Time           // phase two: since when the re-download waits for a silent peer
+	resolveStalls := func() {
+		var hs []int64
+		for h := range stalled {
+			hs = append(hs, h)
+			delete(stalled, h)
+		}
+		sort.Slice(hs, func(a, b int) bool { return hs[a] < hs[b] })
+		res.Replies = append(res.Replies, hs...)
+	}
 	answer := func(e event) {
 		b, wh := w.behOf(cs, e.peer, e.height)
 		a := action{beh: b, variant: cs.Variant + int(e.height) + e.peer, height: e.height}
@@ -195,15 +209,12 @@ func (w *world) runCase(cs *caseSpec) (res result) {
 		}
 		perPeer[e.peer]--
 		if b == bStall {
-			// never answered.  The requesting goroutine is given 13 s (its request context is 10 s)
-			// to give up; nothing else waits for it.
-			stuck++
-			if grace == nil {
-				grace = time.After(13 * time.Second)
-			}
+			// phase two (phase one sets the request aside before it gets here)
+			stalled2 = time.Now()
 			return
 		}
-		if b == bOk || b == bWrong {
+		if b == bOk {
+			// a block of another height is refused by the downloader: nothing to wait for
 			awaiting = true
 			awaitSince = time.Now()
 		}
@@ -213,6 +224,9 @@ func (w *world) runCase(cs *caseSpec) (res result) {
 	var lastLat time.Time
 	started := false // the first task list has been built and the goroutines run
 	handle := func(e event) {
+		if phase == 2 {
+			stalled2 = time.Time{} // the re-download has moved on
+		}
 		switch e.kind {
 		case evLat:
 			if !started && len(latRun) > 0 && time.Since(lastLat) > time.Second {
@@ -233,6 +247,7 @@ func (w *world) runCase(cs *caseSpec) (res result) {
 				phase = 2
 				endBurst()
 				inflight = 0
+				resolveStalls() // wg.Wait has returned: every goroutine of phase one is gone
 				if len(held) > 0 {
 					res.Odd = "phase two began while requests were held"
 				}
@@ -247,12 +262,12 @@ func (w *world) runCase(cs *caseSpec) (res result) {
 			if e.end != e.height {
 				res.Odd = "request with start != end"
 			}
-			record(obs{K: "req", H: e.height, P: e.peer})
 			perPeer[e.peer]++
 			if perPeer[e.peer] > res.MaxConc {
 				res.MaxConc = perPeer[e.peer]
 			}
 			if phase == 2 {
+				record(obs{K: "req", H: e.height, P: e.peer})
 				if len(res.Order2) == 0 || res.Order2[len(res.Order2)-1] != e.height {
 					res.Order2 = append(res.Order2, e.height)
 				}
@@ -262,6 +277,15 @@ func (w *world) runCase(cs *caseSpec) (res result) {
 			if _, dup := held[e.height]; dup {
 				res.Odd = "two outstanding requests for one height"
 			}
+			if _, st := stalled[e.height]; st {
+				// the ignored request has run into the stream deadline and the goroutine asks the next peer
+				delete(stalled, e.height)
+				res.Replies = append(res.Replies, e.height)
+				record(obs{K: "req", H: e.height, P: e.peer})
+				held[e.height] = e
+				return
+			}
+			record(obs{K: "req", H: e.height, P: e.peer})
 			held[e.height] = e
 			if inflight > 0 {
 				inflight--
@@ -279,6 +303,7 @@ func (w *world) runCase(cs *caseSpec) (res result) {
 		case evDone:
 			flushLat()
 			endBurst()
+			resolveStalls()
 			res.Finished = true
 		}
 	}
@@ -294,6 +319,13 @@ func (w *world) runCase(cs *caseSpec) (res result) {
 		if awaiting && e.kind != evDeliver {
 			pending = append(pending, e)
 			return
+		}
+		if e.kind == evReq && phase == 1 && inflight > 0 {
+			if _, st := stalled[e.height]; st {
+				// a stream deadline fired while another goroutine is being waited for: one at a time
+				pending = append(pending, e)
+				return
+			}
 		}
 		handle(e)
 		if e.kind == evDeliver && awaiting {
@@ -318,8 +350,8 @@ func (w *world) runCase(cs *caseSpec) (res result) {
 				if awaiting || inflight == 0 {
 					continue
 				}
-				live, sleeping, inWait := census()
-				if inWait && len(held)+sleeping+stuck == live {
+				live, sleeping, reading, _, inWait := census()
+				if inWait && sleeping+reading == live && reading <= len(held)+len(stalled) {
 					inflight = 0
 				}
 			case <-deadline:
@@ -327,7 +359,36 @@ func (w *world) runCase(cs *caseSpec) (res result) {
 				return false
 			}
 		}
+		if !awaiting && len(pending) > 0 {
+			flushPending()
+		}
 		return true
+	}
+	// stallOver looks after the requests that nobody answers.  true = one of them is still
+	// pending 13 s after it was made (the downloader's deadline is 10 s): it never ends.
+	stallOver := func() bool {
+		oldest := stalled2
+		for _, t := range stalled {
+			if oldest.IsZero() || t.Before(oldest) {
+				oldest = t
+			}
+		}
+		if oldest.IsZero() || time.Since(oldest) < 10500*time.Millisecond {
+			return false
+		}
+		_, _, reading, reading2, _ := census()
+		if len(stalled) > 0 && reading <= len(held) {
+			// nobody waits for the silent peer any more and nothing new was asked:
+			// the goroutine had nobody left to ask (it returned, or sleeps)
+			resolveStalls()
+		}
+		if !stalled2.IsZero() && !reading2 {
+			stalled2 = time.Time{}
+		}
+		if len(stalled) == 0 && stalled2.IsZero() {
+			return false
+		}
+		return time.Since(oldest) > 13*time.Second
 	}
 	if !settle() {
 		return
@@ -354,13 +415,15 @@ func (w *world) runCase(cs *caseSpec) (res result) {
 			}
 			e := held[pick]
 			delete(held, pick)
+			if b, _ := w.behOf(cs, e.peer, e.height); b == bStall {
+				// never answered; everybody else carries on
+				perPeer[e.peer]--
+				stalled[pick] = time.Now()
+				continue
+			}
 			res.Replies = append(res.Replies, pick)
 			inflight = 1
-			before := stuck
 			answer(e)
-			if stuck > before {
-				inflight = 0
-			}
 			if !settle() {
 				return
 			}
@@ -371,11 +434,12 @@ func (w *world) runCase(cs *caseSpec) (res result) {
 			dispatch(e)
 		case <-time.After(200 * time.Millisecond):
 			checkAwait()
-		case <-grace:
-			// a goroutine still waits for the silent peer: the task does not return
-			flushLat()
-			endBurst()
-			return
+			if stallOver() {
+				// a goroutine still waits for the silent peer: the task does not return
+				flushLat()
+				endBurst()
+				return
+			}
 		case <-deadline:
 			res.Odd = "budget exhausted"
 			return
